@@ -6,10 +6,11 @@ over ALL histories `ops` of the ReceivedPacketHandler API (`Uquic.Spec.RcvRun.Op
 app-data tracker API (`AOp`); the ghost sets are defined in Uquic/Spec/RcvRun.lean.
 -/
 import Uquic.Proofs.RcvTimely
+import Uquic.Proofs.RcvRefine
 import Uquic.Spec.RcvMon
 
 namespace Uquic.Props.C07
-open Uquic.Model.Rcv Uquic.Spec.RcvRun Uquic.Proofs.Rcv
+open Uquic.Model.Rcv Uquic.Spec.RcvRun Uquic.Proofs.Rcv Uquic.Spec.RcvSet
 
 /-- the history of a space in a handler state (`none`: the space was dropped) -/
 def histOf (h : Handler) : Space → Option Hist
@@ -268,6 +269,56 @@ theorem ack_due_is_produced (ops : List AOp) (hc : ContractAll {} ops) (now : In
     (the index-out-of-range in `lastAck.LargestAcked()` needs an ACK without ranges). -/
 theorem no_panic_under_contract (ops : List AOp) (hc : ContractAll {} ops) : (runT ops).panicked = false :=
   (TInv.run ops hc).noPanic
+
+
+/-! ### refinement to the set-based specification (`Uquic.Spec.RcvSet`)
+
+The executable monitors of the correspondence harness judge the implementation against
+`SetHist` (the plain set of tracked packet numbers with a forget threshold and the run cap).
+These theorems prove that the interval-list model computes exactly that specification, for every
+history — so what the monitors check is what the model (and, by the correspondence, the code) does. -/
+
+inductive HOp
+  | recv (p : Int)
+  | del (p : Int)
+
+def HOp.onHist (h : Hist) : HOp → Hist
+  | .recv p => (h.receivedPacket p).1
+  | .del p => h.deleteBelow p
+
+def HOp.onSet (s : SetHist) : HOp → SetHist
+  | .recv p => (s.recv p).1
+  | .del p => s.deleteBelow p
+
+def runH (ops : List HOp) : Hist := ops.foldl HOp.onHist {}
+def runS (ops : List HOp) : SetHist := ops.foldl HOp.onSet {}
+
+theorem rel_run (ops : List HOp) : Rel (runH ops) (runS ops) := by
+  unfold runH runS
+  suffices ∀ h s, Rel h s → Rel (ops.foldl HOp.onHist h) (ops.foldl HOp.onSet s) from this _ _ Rel.init
+  induction ops with
+  | nil => intro h s r; exact r
+  | cons op rest ih =>
+    intro h s r
+    apply ih
+    cases op with
+    | recv p => exact (r.recv p).1
+    | del p => exact r.del p
+
+/-- 6. `history_refines_set`: after ANY history of ReceivedPacket / DeleteBelow calls the tracked
+    ranges are exactly the maximal runs of the specification's tracked set (highest first — the order
+    of an ACK frame), the forget thresholds agree, the duplicate test answers the same, and the next
+    ReceivedPacket reports "new" exactly when the specification does. -/
+theorem history_refines_set (ops : List HOp) :
+    (runH ops).ranges = (runS ops).ranges ∧
+    (runH ops).deletedBelow = (runS ops).floor ∧
+    (∀ p, (runH ops).isPotentiallyDuplicate p = (runS ops).isDup p) ∧
+    (∀ p, ((runH ops).receivedPacket p).2 = ((runS ops).recv p).2) := by
+  have r := rel_run ops
+  exact ⟨r.ranges_eq, r.floor, r.dup_eq, fun p => (r.recv p).2⟩
+
+example : (runH [.recv 5, .recv 7, .recv 6, .del 6, .recv 2]).ranges = [(6, 7)] := by decide
+example : (runS [.recv 5, .recv 7, .recv 6, .del 6, .recv 2]).tracked = [6, 7] := by decide
 
 /-! ### non-vacuity: concrete reachable states satisfy the hypotheses -/
 
